@@ -134,6 +134,11 @@ func (s *Sim) Deliver(b *MBlock) {
 		r.Event("deliver", "%v parent=%v class=%q mut=%q -> main=%v orphan=%v %s", b, b.Parent, b.Class, b.Mut, isMain, isOrph, res)
 		r.Sig("d:" + b.Class)
 	}
+	// (isMainChain=false may be outdated when orphans below b made its
+	// branch the best one inside the same call; true cannot be)
+	if err == nil && !isOrph && isMain && !b.IsAncestorOf(s.n.Tip()) && !s.sub {
+		r.Violate("C02", "views-agree", "processblock-main-flag", "ProcessBlock(%v) reported isMainChain=true but the block is not on the active chain (tip %v)", b, s.n.Tip())
+	}
 	if pr := s.n.prunedFn(); pr != nil && err == nil {
 		// a reorganisation that attached blocks whose data the same call
 		// pruned (the retention window was shorter than the branch): such a
